@@ -54,7 +54,18 @@ class Machine(object):
     def _carrier(self, rng):
         return [rng.choice(F.CARRIERS), rng.randrange(16), rng.random() < 0.5]
 
+    HUGE = [["SHA256", [1 << 29]], ["SHA224", [(1 << 29) + 8]], ["SHA256", [(1 << 29) - 1, 65]], ["SHA256", [1 << 28, 1 << 28, 100]],
+            ["SHA1", [1 << 29, 3]], ["MD5", [(1 << 29) + 1]],
+            # thorough only
+            ["SHA512", [1 << 29, 1]], ["SHA384", [(1 << 29) + 128]], ["RIPEMD160", [1 << 29]], ["SHA256", [1 << 30, 1 << 29]], ["MD4", [1 << 29, 64]],
+            ["SHA224", [3, 1 << 29]]]
+    allow_huge = True          # C17 drives this machine under ASan with one child per allocation: no half-gigabyte messages there
+
     def gen(self, rng, tier, idx):
+        nh = 6 if tier == "quick" else len(self.HUGE)
+        if self.allow_huge and idx < nh:
+            fam, pieces = self.HUGE[idx]
+            return {"group": "huge", "config": {"fam": fam}, "ops": [["huge", pieces]]}
         r = rng.random()
         if r < 0.55:
             return self.gen_cipher(rng)
@@ -152,8 +163,44 @@ class Machine(object):
             self.run_cipher(case, ctx)
         elif g == "hash":
             self.run_hash(case, ctx)
+        elif g == "huge":
+            self.run_huge(case, ctx)
         else:
             self.run_strxor(case, ctx)
+
+    def run_huge(self, case, ctx):
+        """Pieces of half a gigabyte and more (the bit counters of the 32-bit-word hashes carry there): the digest against
+        an independent implementation (hashlib)."""
+        import hashlib
+        fam = case["config"]["fam"]
+        pieces = case["ops"][0][1]
+        ctx.nontrivial = True
+        ctx.state(("huge", fam, len(pieces)))
+        total = sum(pieces)
+        buf = F.huge_zeros(total)
+        h = F.mod(fam).new()
+        off = 0
+        for n in pieces:
+            ctx.step()
+            ctx.fault("seg.huge_piece")
+            h.update(buf[off:off + n])
+            off += n
+        got = h.digest()
+        try:
+            r = hashlib.new({"RIPEMD160": "ripemd160", "MD4": "md4"}.get(fam, fam.lower()))
+        except ValueError:
+            # not provided by this OpenSSL: the same data in 64 MiB pieces through the library itself
+            r = F.mod(fam).new()
+            for o in range(0, total, 1 << 26):
+                r.update(buf[o:min(total, o + (1 << 26))])
+            ctx.probe("huge_reference_is_library_in_small_pieces")
+        else:
+            r.update(buf)
+        ctx.obs(fam, got)
+        ctx.probe("huge_piece_hashed")
+        if got != r.digest():
+            ctx.violate("segmentation/%s/huge-piece" % fam, "%s over %d zero bytes fed as pieces of %s bytes differs from the reference digest" % (fam, total, pieces),
+                        observed=got.hex(), expected=r.digest().hex())
 
     def _guard(self, ctx, fam, what, ok):
         if not ok:
